@@ -88,3 +88,67 @@ func Harness_C21_storage_reload_and_truncate() {
 	v.Assert("C21.storage.at_most_the_whole_chunks_in_the_prefix", got <= whole)
 	v.Reach("C21.storage.end")
 }
+
+// Two saves through one storage object (what a long-running cache does: ResetToStartOfFile + chunks +
+// FinishWriteChunk): the first save writes 1..2 chunks, the second 0..2 chunks of arbitrary bytes
+// (possibly fewer and shorter, possibly equal to a prefix of the first). A reload of the file yields
+// exactly the chunks of the LAST save - nothing of the earlier, longer save survives behind them.
+func Harness_C21_storage_save_twice() {
+	var file []byte
+	w := NewChunkedStorage2Slice(&file)
+	if b, err := w.ReadNext(c21Magic); err != nil || len(b) != 0 {
+		panic("fresh storage is not empty")
+	}
+	save := func(chunks [][]byte) {
+		w.ResetToStartOfFile()
+		if len(chunks) == 0 {
+			chunk := w.StartWriteChunk(c21Magic, 0)
+			if err := w.FinishWriteChunk(chunk); err != nil {
+				panic("write: " + err.Error())
+			}
+		}
+		for _, data := range chunks {
+			chunk := w.StartWriteChunk(c21Magic, 0)
+			chunk = append(chunk, data...)
+			if err := w.FinishWriteChunk(chunk); err != nil {
+				panic("write: " + err.Error())
+			}
+		}
+	}
+	var first, second [][]byte
+	for k, n := 0, 1+v.Choice(2); k < n; k++ {
+		first = append(first, v.NondetBytes(1+v.Choice(2)))
+	}
+	for k, n := 0, v.Choice(3); k < n; k++ {
+		second = append(second, v.NondetBytes(1+v.Choice(2)))
+	}
+	save(first)
+	save(second)
+	want := 0
+	for _, c := range second {
+		want += chunkHeaderSize + len(c) + chunkHashSize
+	}
+	v.Assert("C21.storage.twice.file_holds_only_the_last_save", len(file) == want)
+	r := NewChunkedStorage2Slice(&file)
+	got := 0
+	for {
+		b, err := r.ReadNext(c21Magic)
+		v.Assert("C21.storage.twice.reload_clean", err == nil)
+		if err != nil || len(b) == 0 {
+			break
+		}
+		v.Assert("C21.storage.twice.never_more_chunks_than_last_save", got < len(second))
+		if got < len(second) {
+			same := len(b) == len(second[got])
+			if same {
+				for j := range b {
+					same = v.And(same, b[j] == second[got][j])
+				}
+			}
+			v.Assert("C21.storage.twice.chunk_is_from_the_last_save", same)
+		}
+		got++
+	}
+	v.Assert("C21.storage.twice.all_chunks_of_last_save", got == len(second))
+	v.Reach("C21.storage.twice.end")
+}
